@@ -194,12 +194,14 @@ func (d *f32Decoder) FromDom(vp unsafe.Pointer, node Node, ctx *context) error {
 		return nil
 	}
 
+	/* the range is checked after narrowing: a literal that rounds to MaxFloat32 is in range */
 	ret, ok := node.AsF64(ctx)
-	if !ok || ret > math.MaxFloat32 || ret < -math.MaxFloat32 {
+	val := float32(ret)
+	if !ok || math.IsInf(float64(val), 0) {
 		return error_mismatch(node, ctx, float32Type)
 	}
 
-	*(*float32)(vp) = float32(ret)
+	*(*float32)(vp) = val
 	return nil
 }
 
